@@ -6,6 +6,7 @@ package main
 import (
 	"fmt"
 	"go/types"
+	"strings"
 
 	"golang.org/x/tools/go/ssa"
 )
@@ -32,21 +33,24 @@ func (fr *frame) isCidToken(s value) bool {
 	if len(b) != 12 {
 		return false
 	}
-	prefix := "zdpu"
-	for k := 0; k < len(prefix); k++ {
-		eq := fr.i.byteEq(b[k], prefix[k])
-		switch e := eq.(type) {
-		case bool:
-			if !e {
-				return false
-			}
-		case sym:
-			if !fr.i.decideBool(e.t, "cid.Decode") {
-				return false
+	// "zdpu" = CIDv1 dag-cbor, "zraw" = CIDv1 raw; the remaining 8 characters are the digest
+	match := func(prefix string) bool {
+		for k := 0; k < len(prefix); k++ {
+			eq := fr.i.byteEq(b[k], prefix[k])
+			switch e := eq.(type) {
+			case bool:
+				if !e {
+					return false
+				}
+			case sym:
+				if !fr.i.decideBool(e.t, "cid.Decode") {
+					return false
+				}
 			}
 		}
+		return true
 	}
-	return true
+	return match("zdpu") || match("zraw")
 }
 
 func (m *machine) registerEnvIntrinsics() {
@@ -63,6 +67,29 @@ func (m *machine) registerEnvIntrinsics() {
 	in[cidT+"Encode"] = in[cidT+"String"]
 	in[cidT+"Bytes"] = func(fr *frame, fn *ssa.Function, args []value) value {
 		return append([]value(nil), strBytes(cidStr(args[0]))...)
+	}
+	// a CID token is <4-character version/codec prefix><8-character digest>
+	in[cidT+"Hash"] = func(fr *frame, fn *ssa.Function, args []value) value {
+		b := strBytes(cidStr(args[0]))
+		if len(b) < 4 {
+			return []value(nil)
+		}
+		return append([]value(nil), b[4:]...)
+	}
+	in[cidT+"Type"] = func(fr *frame, fn *ssa.Function, args []value) value {
+		s, _ := cidStr(args[0]).(string)
+		if strings.HasPrefix(s, "zraw") {
+			return uint64(0x55)
+		}
+		return uint64(0x71)
+	}
+	in[cidT+"Version"] = func(fr *frame, fn *ssa.Function, args []value) value { return uint64(1) }
+	in[cidPkg+".NewCidV1"] = func(fr *frame, fn *ssa.Function, args []value) value {
+		prefix := "zdpu"
+		if asInt64(args[0]) == 0x55 {
+			prefix = "zraw"
+		}
+		return structure{mkstr(append(strBytes(prefix), args[1].([]value)...))}
 	}
 	in[cidT+"Defined"] = func(fr *frame, fn *ssa.Function, args []value) value { return strLen(cidStr(args[0])) > 0 }
 	in[cidT+"Equals"] = func(fr *frame, fn *ssa.Function, args []value) value {
